@@ -95,6 +95,7 @@ class Spec(object):
         self.lemmas = {}           # name -> Lemma
         self.axioms = {}           # group name -> list of spec expressions (ground facts)
         self.handlers = {}         # extern qual -> python handler(engine, st, args, kw, node)
+        self.relies = {}           # name -> Rely
 
     def Class(self, name, **kw):
         c = ClassDecl(name, **kw)
